@@ -161,3 +161,42 @@ theorem canSendMany_spec (css : List (List CanFrame)) (rs : List TxResp) :
       exact ⟨p1, p2, h2⟩
 
 end Ross
+
+namespace Ross
+
+theorem canTransmitAllR_noDisplaced (cs : List CanFrame) (rs : List TxResp) (h : ∀ r ∈ rs, r ≠ .displaced) :
+    (canTransmitAllR cs rs).1 = cs ∧ (canTransmitAllR cs rs).2.1 = .ok () ∧
+    ∀ r ∈ (canTransmitAllR cs rs).2.2, r ≠ .displaced := by
+  induction rs generalizing cs with
+  | nil =>
+    induction cs with
+    | nil => simp [canTransmitAllR]
+    | cons c cs ih => simp only [canTransmitAllR]; obtain ⟨i1, i2, i3⟩ := ih; exact ⟨by rw [i1], i2, i3⟩
+  | cons r rs ih =>
+    have hrs : ∀ x ∈ rs, x ≠ .displaced := fun x hx => h x (by simp [hx])
+    cases cs with
+    | nil => simp only [canTransmitAllR]; exact ⟨trivial, trivial, h⟩
+    | cons c cs =>
+      cases r with
+      | sent => simp only [canTransmitAllR]; obtain ⟨i1, i2, i3⟩ := ih cs hrs; exact ⟨by rw [i1], i2, i3⟩
+      | displaced => exact absurd rfl (h .displaced (by simp))
+      | wouldBlock => simp only [canTransmitAllR]; exact ih (c :: cs) hrs
+
+/-- CAN: when the controller never reports a displaced frame, every send succeeds and exactly the concatenated frames
+are handed over, however often the mailboxes were busy -/
+theorem canSendMany_exact (css : List (List CanFrame)) (rs : List TxResp) (h : ∀ r ∈ rs, r ≠ .displaced) :
+    canSendMany css rs = (css.flatten, css.map fun _ => .ok ()) := by
+  induction css generalizing rs with
+  | nil => simp [canSendMany]
+  | cons cs rest ih =>
+    obtain ⟨h1, h2, h3⟩ := canTransmitAllR_noDisplaced cs rs h
+    simp only [canSendMany]
+    cases hc : canTransmitAllR cs rs with
+    | mk l x =>
+      obtain ⟨r, rs'⟩ := x
+      rw [hc] at h1 h2 h3
+      simp only at h1 h2 h3
+      rw [ih rs' h3, h1, h2]
+      simp
+
+end Ross
